@@ -78,8 +78,8 @@ def build_group(repo, group, canary=False):
     return "".join(chunks), parts, log
 
 
-def run_verus(path, rlimit=None, timeout=900, extra=()):
-    cmd = ["verus", path, "--output-json", "--time", "--multiple-errors", "50", "--error-format=json"]
+def run_verus(path, rlimit=None, timeout=900, extra=(), max_errors=50):
+    cmd = ["verus", path, "--output-json", "--time", "--multiple-errors", str(max_errors), "--error-format=json"]
     if rlimit:
         cmd += ["--rlimit", str(rlimit)]
     cmd += list(extra)
@@ -226,7 +226,7 @@ def check_group(repo, gname, builddir, rlimit=None, canary=True):
         if canary:
             cpath = os.path.join(builddir, f"{gname}__canary.rs")
             open(cpath, "w").write(ctext)
-            f2 = ex.submit(run_verus, cpath, rlimit or group.get("rlimit"))
+            f2 = ex.submit(run_verus, cpath, rlimit or group.get("rlimit"), 900, (), 1)   # a canary needs one failure per function, not fifty
         res = f1.result()
         cres = f2.result() if f2 else None
     out = analyse(text, parts, res)
